@@ -138,26 +138,68 @@ Theorem C14_save_wf : forall trav s, wf_state s -> wf_state (traverse trav s).
 Proof. exact save_wf. Qed.
 Print Assumptions C14_save_wf.
 
+(* --- byte arrays holding sofa data (Sofa.sofaArray) ------------------------------------------------------------------
+   They are given ids and written outside the traversal: by XMI after it (`if ... not any(fs is sofa.sofaArray for fs in
+   feature_structures)`: xmi_trav), by JSON before it, in front of their sofa (save_pre). *)
+
+(* what an XMI save visits: what the traversal found, then the arrays it did not find, each once *)
+Theorem C14_xmi_trav_spec : forall ta tx,
+  (forall l, In l (xmi_trav ta tx) <-> In l tx \/ In l ta) /\ (exists extra, xmi_trav ta tx = tx ++ extra) /\
+  (NoDup tx -> NoDup (xmi_trav ta tx)).
+Proof. exact (fun ta tx => conj (xmi_trav_in ta tx) (conj (xmi_trav_prefix ta tx) (xmi_trav_nodup ta tx))). Qed.
+Print Assumptions C14_xmi_trav_spec.
+
+(* the JSON save: without sofa data arrays it is `save`; its state is that of a traversal of the arrays followed by the
+   structures (so C14_save_preserves_content / _keeps_ids / _ids_fresh_distinct / _wf speak about it); saving again returns
+   the same document and the same state; with all ids present it is the identity on the state *)
+Theorem C14_save_pre_spec : forall pre trav s,
+  save_pre [] trav s = save trav s /\ fst (save_pre pre trav s) = traverse (pre ++ trav) s /\
+  save_pre pre trav (fst (save_pre pre trav s)) = save_pre pre trav s /\
+  (settled (pre ++ trav) s -> save_pre pre trav s = (s, doc_of_pre pre trav s)).
+Proof.
+  exact (fun pre trav s => conj (save_pre_nil trav s) (conj (save_pre_state pre trav s)
+           (conj (save_pre_idempotent pre trav s) (save_pre_settled pre trav s)))).
+Qed.
+Print Assumptions C14_save_pre_spec.
+
+(* every save lists every structure of the store that it visits; in particular every sofa data array is an element of
+   EVERY XMI and of EVERY JSON document, whether or not this save is the one that gave the array its id *)
+Theorem C14_save_lists_visited : forall t s l, In l t -> id_of l (st_entries s) <> None -> exists i, In (l, i) (snd (save t s)).
+Proof. exact save_lists_visited. Qed.
+Print Assumptions C14_save_lists_visited.
+Theorem C14_saves_list_arrays : forall ta tx tj s a, In a ta -> id_of a (st_entries s) <> None ->
+  (exists i, In (a, i) (snd (save (xmi_trav ta tx) s))) /\ (exists i, In (a, i) (snd (save_pre ta tj s))).
+Proof. exact (fun ta tx tj s a Ha Hs => conj (xmi_save_lists_arrays ta tx s a Ha Hs) (json_save_lists_arrays ta tj s a Ha Hs)). Qed.
+Print Assumptions C14_saves_list_arrays.
+
 (* --- histories: any number of operations in any order ------------------------------------------------------------- *)
 
 (* all XMI documents (k = OXmi) written along a history are one and the same, and so are all JSON documents (k = OJson),
-   from every initial state, whatever is interleaved (to_xmi, to_json, to_xml, select, select_all, typecheck) *)
-Theorem C14_history_documents_repeat : forall tx tj k ops s d d',
-  In d (docs_of k tx tj ops s) -> In d' (docs_of k tx tj ops s) -> d = d'.
+   from every initial state, whatever is interleaved (to_xmi, to_json, to_xml, select, select_all, typecheck).
+   ta = the byte arrays holding sofa data, in view order (given ids and written outside the traversal: xmi_trav, save_pre);
+   tx / tj = what _find_all_fs visits without / with inlinable collections *)
+Theorem C14_history_documents_repeat : forall ta tx tj k ops s d d',
+  In d (docs_of k ta tx tj ops s) -> In d' (docs_of k ta tx tj ops s) -> d = d'.
 Proof. exact history_documents_repeat. Qed.
 Print Assumptions C14_history_documents_repeat.
 
+(* and each of them lists every sofa data array of the store, the first one as well as the last *)
+Theorem C14_history_documents_list_arrays : forall ta tx tj k ops s d a, k = OXmi \/ k = OJson ->
+  In d (docs_of k ta tx tj ops s) -> In a ta -> id_of a (st_entries s) <> None -> exists i, In (a, i) d.
+Proof. exact history_documents_list_arrays. Qed.
+Print Assumptions C14_history_documents_list_arrays.
+
 (* queries over structures that have ids (indexed structures always do) answer the same in every state of a history *)
-Theorem C14_history_queries_unchanged : forall tx tj labs ops s,
+Theorem C14_history_queries_unchanged : forall ta tx tj labs ops s,
   (forall l, In l labs -> exists i, id_of l (st_entries s) = Some (Some i)) ->
-  Forall (fun s' => query s' labs = query s labs) (states_of tx tj ops s).
+  Forall (fun s' => query s' labs = query s labs) (states_of ta tx tj ops s).
 Proof. exact history_queries_unchanged. Qed.
 Print Assumptions C14_history_queries_unchanged.
 
 (* every state of a history differs from the initial one only in ids given to id-less entries *)
-Theorem C14_history_preserves_content : forall tx tj ops s,
+Theorem C14_history_preserves_content : forall ta tx tj ops s,
   Forall (fun s' => st_next s <= st_next s' /\
-                    Forall2 (extends (st_next s) (st_next s')) (st_entries s) (st_entries s')) (states_of tx tj ops s).
+                    Forall2 (extends (st_next s) (st_next s')) (st_entries s) (st_entries s')) (states_of ta tx tj ops s).
 Proof. exact history_preserves_content. Qed.
 Print Assumptions C14_history_preserves_content.
 
@@ -195,7 +237,7 @@ Example C14_xmi_two_orders :
   let f := [mkFi 9 1 "q.type.T5"; mkFi 4 2 "uima.cas.FSArray"; mkFi 7 3 "NoNs"] in
   let f' := [mkFi 7 3 "NoNs"; mkFi 9 1 "q.type.T5"; mkFi 4 2 "uima.cas.FSArray"] in
   NoDup (map fi_id f) /\
-  xmi_emit f [mkSo 1 1 "_InitialView"] [mkVi 1 [9; 7]] = xmi_emit f' [mkSo 1 1 "_InitialView"] [mkVi 1 [7; 9]] /\
+  xmi_emit f [mkSo 1 1 "_InitialView" None] [mkVi 1 [9; 7]] = xmi_emit f' [mkSo 1 1 "_InitialView" None] [mkVi 1 [7; 9]] /\
   map fi_id (xd_fs (xmi_emit f [] [])) = [4; 7; 9] /\
   xd_ns (xmi_emit f [] []) = ["uima.cas"; "uima.noNamespace"; "q.type"].
 Proof. cbv zeta. split; [repeat constructor; cbn; intuition discriminate|repeat split; reflexivity]. Qed.
@@ -207,12 +249,27 @@ Example C14_save_assigns :
   save [1; 3; 2]%N s = (mkSt [mkE 1 (Some 2); mkE 2 (Some 4); mkE 3 (Some 3); mkE 4 None] 5, [(1%N, 2); (3%N, 3); (2%N, 4)]) /\
   save [1; 3; 2]%N (fst (save [1; 3; 2]%N s)) = save [1; 3; 2]%N s /\
   fst (save [1; 4; 3; 2]%N (fst (save [1; 3; 2]%N s))) = mkSt [mkE 1 (Some 2); mkE 2 (Some 4); mkE 3 (Some 3); mkE 4 (Some 5)] 6 /\
-  docs_of OXmi [1; 3; 2]%N [1; 4; 3; 2]%N [OXmi; OJson; OSelect; OXmi; OTypecheck; OXmi] s =
+  docs_of OXmi [] [1; 3; 2]%N [1; 4; 3; 2]%N [OXmi; OJson; OSelect; OXmi; OTypecheck; OXmi] s =
     [[(1%N, 2); (3%N, 3); (2%N, 4)]; [(1%N, 2); (3%N, 3); (2%N, 4)]; [(1%N, 2); (3%N, 3); (2%N, 4)]].
 Proof.
   cbv zeta. split; [|repeat split; reflexivity].
   apply wf_stateb_spec. reflexivity.
 Qed.
+
+(* a second view whose sofa data is a byte array (label 3) set through the API, id-less and not reachable from an indexed
+   structure; two indexed structures 1 2.  The first to_xmi gives it id 4 and lists it; the second and third list it again;
+   to_json lists it first (before its sofa) under the same id; typecheck does not touch it.  With the array also indexed
+   (traversal [1;2;3]) XMI lists it once and JSON twice. *)
+Example C14_sofa_array_history :
+  let s := mkSt [mkE 1 (Some 2); mkE 2 (Some 3); mkE 3 None] 4 in
+  wf_state s /\ xmi_trav [3]%N [1; 2]%N = [1; 2; 3]%N /\ xmi_trav [3; 3]%N [1; 3; 2]%N = [1; 3; 2]%N /\
+  docs_of OXmi [3]%N [1; 2]%N [1; 2]%N [OTypecheck; OXmi; OXmi; OJson; OXmi] s =
+    [[(1%N, 2); (2%N, 3); (3%N, 4)]; [(1%N, 2); (2%N, 3); (3%N, 4)]; [(1%N, 2); (2%N, 3); (3%N, 4)]] /\
+  docs_of OJson [3]%N [1; 2]%N [1; 2]%N [OJson; OXmi; OJson] s =
+    [[(3%N, 4); (1%N, 2); (2%N, 3)]; [(3%N, 4); (1%N, 2); (2%N, 3)]] /\
+  map st_next (states_of [3]%N [1; 2]%N [1; 2]%N [OTypecheck; OXmi; OXmi; OJson] s) = [4; 5; 5; 5] /\
+  docs_of OJson [3]%N [1; 2; 3]%N [1; 2; 3]%N [OXmi; OJson] s = [[(3%N, 4); (1%N, 2); (2%N, 3); (3%N, 4)]].
+Proof. cbv zeta. split; [apply wf_stateb_spec; reflexivity|repeat split; reflexivity]. Qed.
 
 (* all ids present: three saves in mixed formats leave the state alone *)
 Example C14_saves_all_ids :
